@@ -35,3 +35,35 @@ package grpc
 //@   requires rt == nil || thrInv(rt)
 //@   ensures implies(rt != nil, thrInv(rt))
 //@   ensures implies(rt != nil, rt.tokens == ite(old(rt.tokens)+rt.ratio > rt.max, rt.max, old(rt.tokens)+rt.ratio))
+
+// ---- C21: effective message size limit is the minimum of the configured ones --
+
+//@ func minPointers
+//@   prop C21
+//@   nopanic
+//@   requires a != nil && b != nil
+//@   ensures (result == a || result == b) && *result <= *a && *result <= *b
+
+//@ func getMaxSize
+//@   prop C21
+//@   nopanic
+//@   ensures result != nil
+//@   ensures implies(mcMax == nil && doptMax == nil, *result == defaultVal && fresh(result))
+//@   ensures implies(mcMax != nil && doptMax != nil, (result == mcMax || result == doptMax) && *result <= *mcMax && *result <= *doptMax)
+//@   ensures implies(mcMax != nil && doptMax == nil, result == mcMax)
+//@   ensures implies(mcMax == nil && doptMax != nil, result == doptMax)
+
+// ---- C24: errors surfaced to the application carry a gRPC status ---------------
+//
+// isstatus(e): status.FromError(e) succeeds (e carries a status, directly or
+// wrapped). The two package-level context errors are built with status.Error
+// at package initialisation (precondition, not re-proved).
+
+//@ import io "io"
+
+//@ func toRPCErr
+//@   prop C24
+//@   requires errContextDeadline != nil && isstatus(errContextDeadline) && errContextCanceled != nil && isstatus(errContextCanceled)
+//@   ensures implies(err == nil, result == nil)
+//@   ensures implies(err == io.EOF, result == err)
+//@   ensures implies(result != nil && result != io.EOF, isstatus(result))
